@@ -47,6 +47,7 @@ func buildWorld(cfg Config) *World {
 	}
 	w := NewWorld(cfg, sc.NActors)
 	sc.Setup(w)
+	w.SetupPhase = false
 	return w
 }
 
